@@ -37,6 +37,9 @@ type VC struct {
 	dtDecls  []string // datatype declarations (must precede everything)
 	dtSet    map[string]bool
 	asserts  []string
+	tags     []int // top-level block that generated each assertion (-1: global)
+	curTag   int
+	reachTo  map[int]map[int]bool // block -> set of blocks that can reach it in the cut DAG (incl. itself)
 	obls     []*Obligation
 	nfresh   int
 	warnings []string
@@ -63,11 +66,12 @@ type Obligation struct {
 	Model   string
 	Expect  string // "" (must be unsat) or "sat" for vacuity canaries
 	Agree   int
+	Tag     int // top-level block of the obligation (-1: whole function)
 	Desc    string
 }
 
 func newVC(p *Program) *VC {
-	return &VC{prog: p, declSet: map[string]bool{}, dtSet: map[string]bool{}, strLits: map[string]string{},
+	return &VC{curTag: -1, prog: p, declSet: map[string]bool{}, dtSet: map[string]bool{}, strLits: map[string]string{},
 		structs: map[string]*types.Struct{}, ufuncs: map[string]bool{}, trusted: map[string]bool{}, unfolded: map[string]bool{}}
 }
 
@@ -115,6 +119,7 @@ func (vc *VC) assert(t string) {
 		return
 	}
 	vc.asserts = append(vc.asserts, t)
+	vc.tags = append(vc.tags, vc.curTag)
 }
 
 // assume adds a guarded assumption.
@@ -128,6 +133,7 @@ func (vc *VC) assume(guard, t string) {
 func (vc *VC) oblige(o *Obligation) {
 	o.NAsserts = len(vc.asserts)
 	o.vc = vc
+	o.Tag = vc.curTag
 	vc.obls = append(vc.obls, o)
 }
 
